@@ -114,6 +114,22 @@ theorem tie_log_tags :
     Generated.C04.deleteReferenceFileApply = ["version.DeleteReferenceFile"] := by
   decide
 
+/-- error handling of the rollup job (c04-14's region): every error branch of
+`compactJob.makeInputIterator` (a source file that cannot be opened) and of `doRollupWork` returns the
+error, and `rollup()` `continue`s on a failed `doRollupWork` before collecting the DeleteRollupFile
+logs — i.e. a failed job is the model's "interval not available in this attempt": no merge record,
+no reference, the rollup entries stay (`rollup_attempt_failed_keeps_markers`). -/
+theorem tie_job_errors :
+    (∀ k ∈ Generated.C04.makeInputIteratorErrBranches, k = "return-err") ∧
+    Generated.C04.makeInputIteratorErrBranches ≠ [] ∧
+    (∀ k ∈ Generated.C04.doRollupWorkErrBranches, k = "return-err") ∧
+    Generated.C04.rollupOnWorkError = "continue" := by
+  decide
+
+/-- the guard of `family.rollup()` is the atomic compare-and-swap the model's `GStep.cas` is
+(`cas_at_most_one_job`); a "Load, then Store in the goroutine" guard is `Neg.load_then_store_two_jobs` -/
+theorem tie_rollup_guard : Generated.C04.rollupGuardIsCAS = true := by decide
+
 /-- The theorems below describe ONE merge job. Jobs of different families run concurrently
 (`Store.ForceRollup` and the compaction timer start one goroutine per family), so they carry over to
 the product only if the jobs share no scratch state: no package-level variable reachable from
@@ -543,6 +559,47 @@ theorem rollup_drains (ops : List Op) (fam : Nat) (ivs avail dvs : List Iv) :
   · exact absurd ⟨hf, hi, ha⟩ (hpend p h1)
   · exact List.count_eq_one_of_mem h.nodup h1
 
+
+/-! ## failed attempts (a job that cannot read a source file) -/
+
+/-- A rollup attempt fails for some target intervals (`avail i = false`: target store missing,
+family creation or the merge job failed — e.g. a source sst could not be opened): the rollup
+entries of those intervals, of intervals not processed and of other families are all kept. -/
+theorem rollup_attempt_failed_keeps_markers (ops : List Op) (fam : Nat) (ivs avail dvs : List Iv)
+    (p : Key × Iv) (hp : p ∈ (St.init.run ops).pending)
+    (hkeep : p.1.1 ≠ fam ∨ p.2 ∉ ivs ∨ p.2 ∉ avail) :
+    p ∈ ((St.init.run ops).step (.rollup fam ivs avail dvs none)).pending := by
+  simp only [St.step]
+  apply rollup_keeps_markers _ fam ivs _ dvs p hp
+  rcases hkeep with h | h | h
+  · exact Or.inl h
+  · exact Or.inr (Or.inl h)
+  · exact Or.inr (Or.inr (by simpa using h))
+
+/-- An attempt in which every interval fails commits no record: the state is unchanged … -/
+theorem rollup_attempt_all_failed_commits_nothing (σ : St) (fam : Nat) (ivs dvs : List Iv) (cut : Option Nat) :
+    σ.step (.rollup fam ivs [] dvs cut) = σ := by
+  have h := rollupRecs_all_failed σ fam ivs dvs
+  have hf : (fun i : Iv => decide (i ∈ ([] : List Iv))) = fun _ => false := by funext i; simp
+  simp only [St.step, hf, h]
+  cases cut <;> simp [St.applyAll]
+
+/-- … hence a failed attempt followed by a successful one is one successful attempt (same records,
+same state, the file merged exactly once by `once`). -/
+theorem failed_then_ok_eq_ok (σ : St) (fam : Nat) (ivs dvs ivs' avail' dvs' : List Iv) (cut cut' : Option Nat) :
+    (σ.step (.rollup fam ivs [] dvs cut)).step (.rollup fam ivs' avail' dvs' cut') =
+      σ.step (.rollup fam ivs' avail' dvs' cut') := by
+  rw [rollup_attempt_all_failed_commits_nothing]
+
+/-! ## at most one job per source family -/
+
+/-- With the compare-and-swap guard, whatever the order of triggers and job ends, at most one rollup
+job of a family runs at a time (and the flag is set while it runs) — the reason why the histories of
+`once` are sequential per source family. -/
+theorem cas_at_most_one_job (l : List GStep) (hl : ∀ s ∈ l, (∃ t, s = .cas t) ∨ (∃ t, s = .finish t)) :
+    (({} : JobGuard).run l).running.length ≤ 1 :=
+  (guard_cas_inv l hl {} (by simp) (by simp)).1
+
 /-! ## non-vacuity -/
 
 /-- the calendar hypothesis holds for the executable calendar on concrete days -/
@@ -594,6 +651,38 @@ theorem misplaced_10s_7m_count :
 theorem misplaced_1s_19h :
     let r := mkR stdCal 1000 68400000 (18079 * oneDay) 2
     r.intervalRatio = 2864 ∧ r.baseSlot + 2864 / r.intervalRatio ≠ r.calcSlot (r.getTimestamp 2864) := by
+  decide
+
+/-- "skip but mark" (c04-14's shape): the job of interval 300000 merges only file (1,2), although
+(1,2) and (1,4) are its inputs, and the rollup entries of BOTH are deleted. The delete record is not
+legitimate (`Just` fails) and the resulting state violates the invariant: (1,4) holds data, is
+registered, not pending any more and was never merged. -/
+theorem skip_but_mark_loses_file :
+    let σ := St.init.run [.flush 1 2 true [300000], .flush 1 4 true [300000]]
+    let σ1 := σ.apply (.merge 300000 [(1, 2)])
+    let σ2 := σ1.apply (.delRollup [((1, 2), 300000), ((1, 4), 300000)])
+    ¬ Just σ1 (.delRollup [((1, 2), 300000), ((1, 4), 300000)])
+    ∧ ((1, 4), 300000) ∈ σ2.registered ∧ (1, 4) ∈ σ2.l0
+    ∧ ((1, 4), 300000) ∉ σ2.pending ∧ ((1, 4), 300000) ∉ σ2.merged := by
+  refine ⟨?_, by decide, by decide, by decide, by decide⟩
+  intro h
+  have := h ((1, 4), 300000) (by decide) (by decide)
+  revert this
+  decide
+
+/-- "Load, then Store inside the goroutine" instead of the compare-and-swap (c04-15's shape): two
+triggers both read `false`, two jobs of the same source family run at the same time. -/
+theorem load_then_store_two_jobs :
+    (({} : JobGuard).run [.load 1, .load 2, .store 1, .store 2]).running.length = 2 := by
+  decide
+
+/-- (recorded finding `compaction-before-rollup-loses-file`, replayed on the real stores by the
+harness) a compaction of the source family between flush and rollup: see `Obs` below -/
+theorem compaction_before_rollup_not_merged :
+    let σ1 := St.init.apply (.flush (1, 2) true [300000])
+    let σ2 := σ1.apply (.compact [(1, 2)])
+    let σ3 := σ2.applyAll (rollupRecs σ2 1 [300000] (fun _ => true) [300000])
+    ((1, 2), 300000) ∈ σ3.registered ∧ ((1, 2), 300000) ∉ σ3.pending ∧ ((1, 2), 300000) ∉ σ3.merged := by
   decide
 
 end Neg
